@@ -69,7 +69,7 @@ Qed.
 Lemma wf_init : forall has fs nf, wf (init_state has fs nf).
 Proof. intros; constructor; cbn; [constructor | reflexivity | congruence]. Qed.
 
-Lemma step_wf : forall s c, wf s -> wf (fst (step s c)).
+Lemma step_wf : forall s c, wf s -> wf (fst (step true s c)).
 Proof.
   intros s c [Hdb Hlk Hhas]. destruct c as [ro seek | d h m | d]; cbn [step].
   - (* Open *)
@@ -88,7 +88,7 @@ Proof.
       * reflexivity.
   - (* API call *)
     destruct (nth_error (dbs s) d) as [db|] eqn:E; [|constructor; assumption].
-    destruct (local_step db h m) as [[db' ms] o] eqn:LS. cbn [fst].
+    destruct (local_step true db h m) as [[db' ms] o] eqn:LS. cbn [fst].
     pose proof (Forall_nth_error _ _ _ _ _ Hdb E) as Ok0.
     pose proof (local_step_ok _ _ _ _ _ _ Ok0 LS) as Ok1.
     pose proof (local_step_mode _ _ _ _ _ _ LS) as MT.
@@ -117,22 +117,24 @@ Proof.
     + rewrite (upd_id _ _ _ _ E). constructor; assumption.
 Qed.
 
-Lemma run_wf : forall l s, wf s -> wf (run s l).
+Lemma run_wf : forall l s, wf s -> wf (run true s l).
 Proof. induction l as [|c l IH]; intros s H; cbn; [assumption|]. apply IH. now apply step_wf. Qed.
 
 (* states reachable from any initial storage content by any call sequence *)
-Definition reachable (s : state) : Prop := exists has fs nf l, s = run (init_state has fs nf) l.
+(* reachable in the machine of code variant [parks]; [reachable] = the repaired code (parks = true) *)
+Definition reachable_of (parks : bool) (s : state) : Prop := exists has fs nf l, s = run parks (init_state has fs nf) l.
+Definition reachable (s : state) : Prop := reachable_of true s.
 
 Lemma reachable_wf : forall s, reachable s -> wf s.
 Proof. intros s (has & fs & nf & l & ->). apply run_wf, wf_init. Qed.
 
-Lemma reachable_step : forall s c, reachable s -> reachable (fst (step s c)).
+Lemma reachable_step : forall s c, reachable s -> reachable (fst (step true s c)).
 Proof.
   intros s c (has & fs & nf & l & ->). exists has, fs, nf, (l ++ [c]).
   generalize (init_state has fs nf). induction l as [|x l IH]; intros s0; cbn; [reflexivity|]. apply IH.
 Qed.
 
-Lemma reachable_run : forall l s, reachable s -> reachable (run s l).
+Lemma reachable_run : forall l s, reachable s -> reachable (run true s l).
 Proof. induction l as [|c l IH]; intros s H; cbn; [assumption|]. apply IH. now apply reachable_step. Qed.
 
 (* ---------------------------------------------------------------- helpers on the global step *)
@@ -157,8 +159,8 @@ Proof.
 Qed.
 
 Lemma step_api_eq : forall s d h m db db' ms o,
-  nth_error (dbs s) d = Some db -> local_step db h m = (db', ms, o) ->
-  step s (CApi d h m) =
+  nth_error (dbs s) d = Some db -> local_step true db h m = (db', ms, o) ->
+  step true s (CApi d h m) =
     (mkState (if negb (is_closed (dmode db)) && is_closed (dmode db') then set_locked (apply_muts (stor s) ms) false
               else apply_muts (stor s) ms) (upd (dbs s) d db'), o).
 Proof. intros s d h m db db' ms o E L. cbn [step]. rewrite E, L. reflexivity. Qed.
@@ -170,7 +172,7 @@ Proof. intros [a b]; reflexivity. Qed.
 
 Lemma single_owner_locked : forall s d db ro seek,
   reachable s -> nth_error (dbs s) d = Some db -> dmode db <> Closed ->
-  step s (COpen ro seek) = (s, ErrLocked).
+  step true s (COpen ro seek) = (s, ErrLocked).
 Proof.
   intros s d db ro seek R E M. destruct (wf_open_locked _ _ _ (reachable_wf _ R) E M) as [L _].
   cbn [step]. unfold open_step. now rewrite L.
@@ -187,16 +189,16 @@ Qed.
 
 Lemma close_releases : forall s d db h,
   reachable s -> nth_error (dbs s) d = Some db -> dmode db <> Closed ->
-  let s' := fst (step s (CApi d h DbClose)) in
-  snd (step s (CApi d h DbClose)) = Ok /\ locked (stor s') = false /\
+  let s' := fst (step true s (CApi d h DbClose)) in
+  snd (step true s (CApi d h DbClose)) = Ok /\ locked (stor s') = false /\
   (exists db', nth_error (dbs s') d = Some db' /\ dmode db' = Closed) /\
-  forall ro seek, snd (step s' (COpen ro seek)) = Ok /\
-                  length (dbs (fst (step s' (COpen ro seek)))) = S (length (dbs s')).
+  forall ro seek, snd (step true s' (COpen ro seek)) = Ok /\
+                  length (dbs (fst (step true s' (COpen ro seek)))) = S (length (dbs s')).
 Proof.
   intros s d db h R E M s'.
   pose proof (reachable_wf _ R) as W.
   assert (W' : wf s') by (apply step_wf; assumption).
-  assert (LS : exists ms db', local_step db h DbClose = (db', ms, Ok) /\ dmode db' = Closed).
+  assert (LS : exists ms db', local_step true db h DbClose = (db', ms, Ok) /\ dmode db' = Closed).
   { unfold local_step; cbn. unfold db_step. destruct (dmode db) eqn:MD; try congruence; cbn.
     - rewrite andb_false_r. eexists _, _; split; reflexivity.
     - eexists _, _; split; reflexivity.
@@ -216,8 +218,8 @@ Qed.
 
 Lemma closed_is_closed : forall s d db h m,
   reachable s -> nth_error (dbs s) d = Some db -> dmode db = Closed ->
-  let s' := fst (step s (CApi d h m)) in
-  snd (step s (CApi d h m)) = closed_outcome db h m /\
+  let s' := fst (step true s (CApi d h m)) in
+  snd (step true s (CApi d h m)) = closed_outcome db h m /\
   stor s' = stor s /\
   (exists db', nth_error (dbs s') d = Some db' /\ dmode db' = Closed /\ dbg db' = false) /\
   (forall d', d' <> d -> nth_error (dbs s') d' = nth_error (dbs s) d') /\
@@ -226,7 +228,7 @@ Proof.
   intros s d db h m R E M s'.
   pose proof (reachable_wf _ R) as W.
   pose proof (Forall_nth_error _ _ _ _ _ (wf_db _ W) E) as Ok0.
-  destruct (local_step db h m) as [[db' ms] o] eqn:LS.
+  destruct (local_step true db h m) as [[db' ms] o] eqn:LS.
   destruct (local_closed _ _ _ _ _ _ Ok0 M LS) as (-> & -> & MC & BG & _ & Same).
   subst s'. rewrite (step_api_eq _ _ _ _ _ _ _ _ E LS). cbn [fst snd stor dbs].
   rewrite M. cbn. repeat split.
@@ -237,7 +239,7 @@ Proof.
 Qed.
 
 Lemma double_close_harmless : forall s d db h,
-  nth_error (dbs s) d = Some db -> dmode db = Closed -> step s (CApi d h DbClose) = (s, ErrClosed).
+  nth_error (dbs s) d = Some db -> dmode db = Closed -> step true s (CApi d h DbClose) = (s, ErrClosed).
 Proof.
   intros s d db h E M. cbn [step]. rewrite E. unfold local_step; cbn. unfold db_step. rewrite M. cbn.
   rewrite (upd_id _ _ _ _ E). now rewrite state_eta.
@@ -247,8 +249,8 @@ Qed.
 
 Lemma ro_rejects_writes_serves_reads : forall s d db h m,
   reachable s -> nth_error (dbs s) d = Some db -> is_ro (dmode db) = true ->
-  let s' := fst (step s (CApi d h m)) in
-  let o := snd (step s (CApi d h m)) in
+  let s' := fst (step true s (CApi d h m)) in
+  let o := snd (step true s (CApi d h m)) in
   (recv m = RDb -> takes_write_lock m = true -> o = ErrReadOnly /\ s' = s) /\
   (recv m = RDb -> db_read m = true -> o = Ok /\ stor s' = stor s) /\
   (m <> DbClose -> m <> ItRelease -> stor s' = stor s) /\
@@ -257,7 +259,7 @@ Proof.
   intros s d db h m R E M s' o.
   pose proof (reachable_wf _ R) as W.
   pose proof (Forall_nth_error _ _ _ _ _ (wf_db _ W) E) as Ok0.
-  destruct (local_step db h m) as [[db' ms] o'] eqn:LS.
+  destruct (local_step true db h m) as [[db' ms] o'] eqn:LS.
   destruct (local_ro _ _ _ _ _ _ Ok0 M LS) as (Wr & Rd & Cl & Ms).
   pose proof (local_step_mode _ _ _ _ _ _ LS) as MT.
   subst s' o. rewrite (step_api_eq _ _ _ _ _ _ _ _ E LS). cbn [fst snd stor dbs].
@@ -281,7 +283,7 @@ Definition quiet (s : state) : Prop := Forall (fun db => quietb db = true) (dbs 
 Definition no_rw_open (c : call) : bool := match c with COpen false _ => false | _ => true end.
 
 Lemma step_quiet : forall s c, wf s -> quiet s -> no_rw_open c = true ->
-  mlog (stor (fst (step s c))) = mlog (stor s) /\ quiet (fst (step s c)).
+  mlog (stor (fst (step true s c))) = mlog (stor s) /\ quiet (fst (step true s c)).
 Proof.
   intros s c W Q NR. destruct c as [ro seek | d h m | d]; cbn [step].
   - destruct ro; [|discriminate]. unfold open_step.
@@ -290,7 +292,7 @@ Proof.
     split; [reflexivity|]. unfold quiet; cbn. apply Forall_app; split; [assumption|].
     constructor; [reflexivity|constructor].
   - destruct (nth_error (dbs s) d) as [db|] eqn:E; [|split; [reflexivity|assumption]].
-    destruct (local_step db h m) as [[db' ms] o] eqn:LS. cbn [fst].
+    destruct (local_step true db h m) as [[db' ms] o] eqn:LS. cbn [fst].
     pose proof (Forall_nth_error _ _ _ _ _ (wf_db _ W) E) as Ok0.
     pose proof (Forall_nth_error _ _ _ _ _ Q E) as Q0. cbn in Q0.
     destruct (local_quiet _ _ _ _ _ _ Ok0 Q0 LS) as [-> Q1]. cbn [stor dbs]. split.
@@ -303,7 +305,7 @@ Proof.
 Qed.
 
 Lemma run_quiet : forall l s, wf s -> quiet s -> forallb no_rw_open l = true ->
-  mlog (stor (run s l)) = mlog (stor s).
+  mlog (stor (run true s l)) = mlog (stor s).
 Proof.
   induction l as [|c l IH]; intros s W Q NR; cbn; [reflexivity|].
   cbn in NR. apply andb_true_iff in NR. destruct NR as [N1 N2].
@@ -322,7 +324,7 @@ Qed.
 (* opening read-only and anything done afterwards without re-opening read-write issues no mutation at all *)
 Lemma ro_open_pure : forall s seek l,
   reachable s -> locked (stor s) = false -> forallb no_rw_open l = true ->
-  mlog (stor (run s (COpen true seek :: l))) = mlog (stor s).
+  mlog (stor (run true s (COpen true seek :: l))) = mlog (stor s).
 Proof.
   intros s seek l R L NR. pose proof (reachable_wf _ R) as W.
   apply (run_quiet (COpen true seek :: l) s W (unlocked_quiet _ W L)). exact NR.
@@ -338,17 +340,17 @@ Proof.
   unfold pins_current. destruct (ik i); [now rewrite H|reflexivity].
 Qed.
 
-(* a DB switched to read-only whose seek compaction is disabled: once the iterators obtained before have been
+(* a DB switched to read-only, whatever its seek-compaction option: once the iterators obtained before have been
    released and the background work has drained, nothing done afterwards (short of re-opening read-write)
    issues a mutation *)
 Lemma ro_quiesces : forall s d db l,
-  reachable s -> nth_error (dbs s) d = Some db -> dmode db = RSwitched -> dseek db = false ->
+  reachable s -> nth_error (dbs s) d = Some db -> dmode db = RSwitched ->
   iters_released db = true ->
   forallb no_rw_open l = true ->
-  let s1 := fst (step s (CDrain d)) in
-  mlog (stor (run s1 l)) = mlog (stor s1).
+  let s1 := fst (step true s (CDrain d)) in
+  mlog (stor (run true s1 l)) = mlog (stor s1).
 Proof.
-  intros s d db l R E M SK IR NR s1.
+  intros s d db l R E M IR NR s1.
   pose proof (reachable_wf _ R) as W.
   assert (W1 : wf s1) by (apply step_wf; assumption).
   apply run_quiet; [assumption| |assumption].
@@ -360,11 +362,11 @@ Proof.
   destruct (dbg db) eqn:B; cbn [fst dbs] in E'.
   - destruct (PeanoNat.Nat.eq_dec d' d) as [->|N].
     + rewrite (nth_error_upd_same _ _ _ _ _ E) in E'. injection E' as <-.
-      unfold quietb; cbn. rewrite M, SK. cbn. apply iters_released_pins. exact IR.
+      unfold quietb; cbn. rewrite M. cbn. apply iters_released_pins. exact IR.
     + rewrite nth_error_upd_other in E' by congruence. eauto.
   - rewrite (upd_id _ _ _ _ E) in E'.
     destruct (PeanoNat.Nat.eq_dec d' d) as [->|N]; [|eauto].
-    rewrite E in E'. injection E' as <-. unfold quietb. rewrite M, SK, B. cbn.
+    rewrite E in E'. injection E' as <-. unfold quietb. rewrite M, B. cbn.
     apply iters_released_pins. exact IR.
 Qed.
 
@@ -373,7 +375,7 @@ Qed.
 Lemma released_snapshot_reports : forall s d db h m,
   nth_error (dbs s) d = Some db -> nth_error (dsnaps db) h = Some true ->
   m = SnGet \/ m = SnHas \/ m = SnNewIterator ->
-  snd (step s (CApi d h m)) = ErrSnapshotReleased /\ stor (fst (step s (CApi d h m))) = stor s.
+  snd (step true s (CApi d h m)) = ErrSnapshotReleased /\ stor (fst (step true s (CApi d h m))) = stor s.
 Proof.
   intros s d db h m E H Hm.
   destruct (local_snap_released db h m H Hm) as (db' & LS & MD & _).
@@ -384,11 +386,11 @@ Qed.
 Lemma released_iterator_reports : forall s d db h i m,
   nth_error (dbs s) d = Some db -> nth_error (diters db) h = Some i ->
   irel i = true -> ierr i = Ok -> it_move m = true ->
-  let s' := fst (step s (CApi d h m)) in
-  snd (step s (CApi d h m)) = ErrIterReleased /\ stor s' = stor s /\
+  let s' := fst (step true s (CApi d h m)) in
+  snd (step true s (CApi d h m)) = ErrIterReleased /\ stor s' = stor s /\
   (* and the error sticks: Error(), Valid(), Key(), Value() and every later movement report it *)
   forall m', it_move m' = true \/ m' = ItValid \/ m' = ItError \/ m' = ItKey \/ m' = ItValue ->
-    step s' (CApi d h m') = (s', ErrIterReleased).
+    step true s' (CApi d h m') = (s', ErrIterReleased).
 Proof.
   intros s d db h i m E H R Er Mv s'.
   pose proof (local_iter_released db h i m H R Er Mv) as LS.
@@ -410,7 +412,7 @@ Qed.
 
 Lemma released_iterator_setreleaser_panics : forall s d db h i b,
   nth_error (dbs s) d = Some db -> nth_error (diters db) h = Some i -> irel i = true ->
-  step s (CApi d h (ItSetReleaser b)) = (s, Panics).
+  step true s (CApi d h (ItSetReleaser b)) = (s, Panics).
 Proof.
   intros s d db h i b E H R.
   rewrite (step_api_eq _ _ _ _ _ _ _ _ E (local_iter_setreleaser_released db h i b H R)).
@@ -420,12 +422,12 @@ Qed.
 
 Lemma finished_transaction_reports : forall s d db h t m,
   nth_error (dbs s) d = Some db -> nth_error (dtxns db) h = Some t -> tdone t = true -> recv m = RTxn ->
-  snd (step s (CApi d h m)) =
+  snd (step true s (CApi d h m)) =
     match m with
     | TrWrite true | TrDiscard => Ok
     | TrCommit => if is_closed (dmode db) then ErrClosed else ErrTransactionDone
     | _ => ErrTransactionDone
-    end /\ stor (fst (step s (CApi d h m))) = stor s.
+    end /\ stor (fst (step true s (CApi d h m))) = stor s.
 Proof.
   intros s d db h t m E H D Rc.
   destruct (local_txn_done db h t m H D Rc) as (db' & LS & MD & _).
@@ -445,19 +447,27 @@ Qed.
 Lemma closed_db_methods_return_ErrClosed : forall db h m, recv m = RDb -> closed_outcome db h m = ErrClosed.
 Proof. intros db h m R. unfold closed_outcome. now rewrite R. Qed.
 
-(* the full quiescence statement (without the exclusion dseek = false) is false for the machine, as it is for
-   the code: witness = create, write, SetReadOnly, drain, then a Get followed by a drain *)
-Lemma ro_quiesces_refuted_with_seeks :
+(* the code BEFORE the repair (parks = false) did not quiesce: witness = create, write, SetReadOnly, drain, then
+   a Get followed by a drain -- the Get schedules a seek compaction which the still-running table-compaction
+   goroutine executes *)
+Lemma ro_quiesces_refuted_before_repair :
   exists s d db l,
-    reachable s /\ nth_error (dbs s) d = Some db /\ dmode db = RSwitched /\ iters_released db = true /\
+    reachable_of false s /\ nth_error (dbs s) d = Some db /\ dmode db = RSwitched /\ iters_released db = true /\
     forallb no_rw_open l = true /\
-    let s1 := fst (step s (CDrain d)) in
-    mlog (stor (run s1 l)) <> mlog (stor s1).
+    let s1 := fst (step false s (CDrain d)) in
+    mlog (stor (run false s1 l)) <> mlog (stor s1).
 Proof.
-  exists (run (init_state false [] 1%N) [COpen false true; CApi 0 0 DbPut; CApi 0 0 DbSetReadOnly]), 0.
+  exists (run false (init_state false [] 1%N) [COpen false true; CApi 0 0 DbPut; CApi 0 0 DbSetReadOnly]), 0.
   eexists. exists [CApi 0 0 DbGet; CDrain 0].
   split; [eexists _, _, _, _; reflexivity|].
   split; [vm_compute; reflexivity|].
   split; [reflexivity|]. split; [reflexivity|]. split; [reflexivity|].
   vm_compute. discriminate.
 Qed.
+
+(* the same calls on the repaired code leave the mutation log alone (instance of ro_quiesces, by computation) *)
+Lemma ro_quiesces_same_calls_repaired :
+  let s := run true (init_state false [] 1%N) [COpen false true; CApi 0 0 DbPut; CApi 0 0 DbSetReadOnly] in
+  let s1 := fst (step true s (CDrain 0)) in
+  mlog (stor (run true s1 [CApi 0 0 DbGet; CDrain 0])) = mlog (stor s1).
+Proof. vm_compute. reflexivity. Qed.
